@@ -453,13 +453,17 @@ fn e2e_path(tag: &str) -> String {
         "g_4_2_t12" | "g_3_2_t234" => format!("grp::{tag}"),
         "g_4_2_t13_min0" => format!("gmin0::{tag}"),
         "g_3_2_t12_max0" | "g_3_2_t12_max100" => format!("gmax0::{tag}"),
+        "rg_3_2_t12" => format!("renamed::{tag}"),
+        "rgi_3_2_t23" => format!("renamed::inner::{tag}"),
+        "raw_4_1_t3" => format!("type::{tag}"),
+        "z_0_2_t12" => format!("zero::{tag}"),
         _ => tag.to_string(),
     };
     format!("hx_loop_e2e::{rel}")
 }
 
 /// Case: `bench=<tag> via=<cli|env|attr|attr+cli-n|builder|builder+env-n|builder+env-s> mode=<b|t> n=<n|-> s=<s> threads=<a,b,..>
-/// [mx=0] [bn=<builder count overridden by the environment>] [bs=..]` (the
+/// [mx=0] [bn=<builder count overridden by the environment>] [bs=..] [start=<main|api-test|api-bench|args-..>]` (the
 /// effective values; `via` says where they are given).  Output: per thread
 /// count `t=T samples=.. iters=.. calls=<per thread index>` joined by `;`.
 fn run_e2e(line: &str) -> String {
@@ -475,12 +479,27 @@ fn run_e2e(line: &str) -> String {
     let exe = std::env::current_exe().expect("exe").with_file_name("hx-loop-e2e");
     let mut cmd = Command::new(exe);
     for (k, _) in std::env::vars() {
-        if k.starts_with("DIVAN_") || k == "NEXTEST" || k == "HX_BUILDER" {
+        if k.starts_with("DIVAN_") || k == "NEXTEST" || k.starts_with("HX_") {
             cmd.env_remove(k);
         }
     }
     cmd.env("NO_COLOR", "1");
-    cmd.arg(if get("mode") == "t" { "--test" } else { "--bench" }).arg("--exact").arg(e2e_path(get("bench")));
+    // `mode` is the REQUESTED action; `start` says how the run is started (see src/e2e.rs)
+    let start = if get("start") == "-" { "main" } else { get("start") };
+    cmd.env("HX_START", start);
+    let api_only = start == "api-test" || start == "api-bench";
+    if api_only {
+        cmd.env("HX_ONLY", e2e_path(get("bench")));
+    } else {
+        let flag = match start {
+            "args-test-then-api-bench" => "--test",
+            "args-bench-then-api-test" => "--bench",
+            _ if get("mode") == "t" => "--test",
+            _ => "--bench",
+        };
+        // selected by its function name, whatever the groups above it are called
+        cmd.arg(flag).arg(format!("::{}$", get("bench")));
+    }
     match get("via") {
         "cli" => {
             if get("n") != "-" {
@@ -550,16 +569,24 @@ fn run_e2e(line: &str) -> String {
     let threads: Vec<usize> = get("threads").split(',').map(|t| t.parse().expect("threads")).collect();
     // table rows: `<tree> name  fastest │ slowest │ median │ mean │ samples │ iters`
     let mut figures: BTreeMap<usize, (String, String)> = BTreeMap::new();
+    let mut in_target = false;
     for l in stdout.lines() {
         let cells: Vec<&str> = l.split('│').map(|c| c.trim()).collect();
-        if cells.len() < 6 || cells[4].is_empty() || !cells[4].chars().all(|c| c.is_ascii_digit()) {
+        let name = cells[0].trim_start_matches(|c: char| "│├╰─ ".contains(c)).split(' ').next().unwrap_or("");
+        let is_t_row = name.starts_with("t=");
+        if name == get("bench") {
+            in_target = true;
+        } else if !is_t_row {
+            in_target = false;
+        }
+        if !in_target || cells.len() < 6 || cells[4].is_empty() || !cells[4].chars().all(|c| c.is_ascii_digit()) {
             continue;
         }
-        let name = cells[0].trim_start_matches(|c: char| "│├╰─ ".contains(c)).split(' ').next().unwrap_or("");
         let t = match name.strip_prefix("t=") {
             Some(n) => n.parse().ok(),
             None if threads.len() == 1 => Some(threads[0]),
-            None => None,
+            // one row for the benchmark although several thread counts are expected: report it as such
+            None => Some(0),
         };
         if let Some(t) = t {
             figures.insert(t, (cells[4].to_string(), cells[5].to_string()));
@@ -569,6 +596,9 @@ fn run_e2e(line: &str) -> String {
     let mut runs: Vec<BTreeMap<usize, u64>> = Vec::new();
     for l in stderr.lines() {
         let tok: Vec<&str> = l.split(' ').collect();
+        if tok.len() >= 2 && tok[1] != get("bench") {
+            continue;
+        }
         if tok[0] == "RUN" {
             runs.push(BTreeMap::new());
         } else if tok[0] == "CALL" && tok.len() == 3 {
@@ -593,6 +623,9 @@ fn run_e2e(line: &str) -> String {
     }
     if runs.len() != threads.len() {
         rows.push(format!("runs={}", runs.len()));
+    }
+    if let Some((sa, it)) = figures.get(&0) {
+        rows.push(format!("single-row samples={sa} iters={it}"));
     }
     rows.join(";")
 }
